@@ -132,6 +132,7 @@ func (c *Ctx) readOnlyFn(rule string, fn *ssa.Function) {
 
 func propC06(c *Ctx) {
 	c.Clauses = append(c.Clauses,
+		"a deposit message is never answered (NOOP or SUCCESS) without loading the stored next L1 sequence in that call",
 		"three-way gate on (req.Sequence ? next): '<' returns (NOOP, nil) with no effect at all, '>' returns an error with no effect, every effect lies on '=' paths",
 		"every success path with '=' increments the L1 sequence exactly once; NextL1Sequence has no writer other than the increment helper and the genesis setter",
 		"the executor check precedes the gate and is read-only",
@@ -414,6 +415,7 @@ func errOrigin(t *Term) string {
 
 func propC07(c *Ctx) {
 	c.Clauses = append(c.Clauses,
+		"handleBridgeHook: a routed message runs only after the payload decoded and the ante decorators accepted the hook tx",
 		"who-may-fail: after the sequence gate the handler returns an error only from store I/O on its own counters/maps/params or from the reclaim send/burn; results of recipient decoding, safeDepositToken and handleBridgeHook never become the handler's error",
 		"safeDepositToken: mint and send run on the cache context; commit only after both succeeded; success only after commit; a recovering defer precedes them",
 		"handleBridgeHook: zero max gas => nothing runs; decoder/ante/handlers run under a recovering defer on a context whose gas meter is bounded by min(remaining, hookMaxGas); handlers run on the cache context; commit only after all handlers succeeded; consumed gas is charged to the outer meter in the deferred closure",
